@@ -29,6 +29,7 @@ from .cfg import always_exits, GuardWalker
 class Path:
     def __init__(self):
         self.facts = []
+        self.fact_pos = []     # len(effects) when the fact was established
         self.effects = []
         self.env = {}
         self.value = None
@@ -37,6 +38,7 @@ class Path:
     def fork(self):
         p = Path()
         p.facts = list(self.facts)
+        p.fact_pos = list(self.fact_pos)
         p.effects = list(self.effects)
         p.env = dict(self.env)
         return p
@@ -66,7 +68,69 @@ class Path:
         return any(norm(e) == text and p == polarity for e, p in self.facts)
 
 
-def return_paths(func, max_paths=400):
+def _helper_of(func, call):
+    """the private same-class method / module function a call goes to"""
+    from .model import dotted
+    d = dotted(call.func) or ''
+    if d.startswith('self.') and d.count('.') == 1 and func.cls is not None:
+        name = d[5:]
+        if name.startswith('_') and not name.startswith('__'):
+            m = func.cls.find_method(name)
+            if m is not None and m is not func:
+                return m
+    elif d and '.' not in d and d.startswith('_'):
+        m = func.module.functions.get(d)
+        if m is not None and m is not func:
+            return m
+    return None
+
+
+def _bind_args(helper, call):
+    """{param: argument expression} for a call, or None if not evident"""
+    params = [p for p in helper.params if p not in ('self', 'cls')]
+    if helper.is_static() or helper.cls is None:
+        pass
+    out = {}
+    if any(isinstance(a, ast.Starred) for a in call.args) or \
+            any(k.arg is None for k in call.keywords):
+        return None
+    if len(call.args) > len(params):
+        return None
+    for p, a in zip(params, call.args):
+        out[p] = a
+    for k in call.keywords:
+        if k.arg not in params:
+            return None
+        out[k.arg] = k.value
+    dfl = helper.param_defaults()
+    for p in params:
+        if p not in out:
+            if p in dfl:
+                out[p] = dfl[p]
+            else:
+                return None
+    return out
+
+
+class _Subst(ast.NodeTransformer):
+    def __init__(self, mapping, prefix, locals_):
+        self.mapping = mapping
+        self.prefix = prefix
+        self.locals_ = locals_
+
+    def visit_Name(self, node):
+        if node.id in self.mapping and isinstance(node.ctx, ast.Load):
+            return copy.deepcopy(self.mapping[node.id])
+        if node.id in self.locals_:
+            return ast.copy_location(
+                ast.Name(id=self.prefix + node.id, ctx=node.ctx), node)
+        return node
+
+
+_HELPER_CACHE = {}
+
+
+def return_paths(func, max_paths=400, inline=True, _depth=0):
     done = []
     overflow = [False]
 
@@ -110,8 +174,10 @@ def return_paths(func, max_paths=400):
             return []
         if isinstance(st, ast.If):
             a, b = p, p.fork()
-            a.facts += list(GuardWalker._atoms(st.test, True))
-            b.facts += list(GuardWalker._atoms(st.test, False))
+            for x, fs in ((a, GuardWalker._atoms(st.test, True)),
+                          (b, GuardWalker._atoms(st.test, False))):
+                x.facts += list(fs)
+                x.fact_pos += [len(x.effects)] * len(fs)
             return run(st.body, [a]) + run(st.orelse, [b])
         if isinstance(st, ast.Try):
             outs = run(st.body, [p.fork()])
@@ -134,9 +200,76 @@ def return_paths(func, max_paths=400):
         if isinstance(st, (ast.FunctionDef, ast.AsyncFunctionDef,
                            ast.ClassDef)):
             return [p]
+        inl = try_inline(st, p)
+        if inl is not None:
+            return inl
         p.effects.append(st)
         assign(p, st)
         return [p]
+
+    def try_inline(st, p):
+        """a statement that is a call of a private helper (optionally
+        assigning its result) is replaced by the helper's own paths"""
+        if not inline or _depth >= 2:
+            return None
+        call = None
+        target = None
+        if isinstance(st, ast.Expr) and isinstance(st.value, ast.Call):
+            call = st.value
+        elif isinstance(st, ast.Assign) and len(st.targets) == 1 and \
+                isinstance(st.value, ast.Call):
+            call, target = st.value, st.targets[0]
+        if call is None:
+            return None
+        h = _helper_of(func, call)
+        if h is None:
+            return None
+        args = _bind_args(h, call)
+        if args is None:
+            return None
+        key = (id(h.node), _depth)
+        if key not in _HELPER_CACHE:
+            _HELPER_CACHE[key] = return_paths(h, max_paths, True, _depth + 1)
+        hp = _HELPER_CACHE[key]
+        if hp is None or len(hp) > 12:
+            return None
+        from .alpha import binding_order
+        hlocals = set(binding_order(h.node))
+        mapping = {k: p.resolve(v) if isinstance(v, ast.Name) and
+                   v.id in p.env and False else v for k, v in args.items()}
+        sub = _Subst(mapping, h.name + '$', hlocals)
+        outs = []
+        for q in hp:
+            n = p.fork()
+            base = len(n.effects)
+            for f, fp in zip(q.facts, q.fact_pos):
+                n.facts.append((sub.visit(copy.deepcopy(f[0])), f[1]))
+                n.fact_pos.append(base + fp)
+            for e in q.effects:
+                if isinstance(e, ast.Return):
+                    continue
+                e2 = sub.visit(copy.deepcopy(e))
+                n.effects.append(e2)
+            for k, (val, pos) in q.env.items():
+                n.env[h.name + '$' + k] = (sub.visit(copy.deepcopy(val)),
+                                           len(n.effects) - 1)
+            val = sub.visit(copy.deepcopy(q.value)) \
+                if q.value is not None else ast.Constant(value=None)
+            if isinstance(target, ast.Name):
+                n.env[target.id] = (val, len(n.effects) - 1)
+            elif isinstance(target, ast.Tuple):
+                vr = n.resolve(val)
+                if isinstance(vr, ast.Tuple) and \
+                        len(vr.elts) == len(target.elts):
+                    for t, v in zip(target.elts, vr.elts):
+                        if isinstance(t, ast.Name):
+                            n.env[t.id] = (v, len(n.effects) - 1)
+                else:
+                    for t in target.elts:
+                        if isinstance(t, ast.Name):
+                            n.env.pop(t.id, None)
+            outs.append(n)
+        return outs
 
     from .model import strip_docstring
     rest = run(strip_docstring(func.node.body), [Path()])
